@@ -5,10 +5,23 @@ From V.C03 Require Import Codec Model Spec Corr.
 Import ListNotations.
 Local Open Scope N_scope.
 
+(** The origin label of a case is a claim of the harness about how the bytes were made.  It is
+    admitted only when the (proved canonical) model confirms it: inputs labelled as generated are
+    accepted entirely, inputs labelled as non-canonical / out-of-range are rejected. *)
+Definition label_ok (src : N) (model : option bytes) : bool :=
+  match model with
+  | Some r => negb (must_reject src) && (negb (generated src) || is_nil r)
+  | None => negb (generated src)
+  end.
+
 Definition wf_case (c : case) : bool :=
   match c with
-  | Tx _ b bad _ => is_bytes b && forallb (fun p => is_bytes (snd p) && (nlen (snd p) =? 32)) bad
-  | Hdr _ b _ => is_bytes b
+  | Tx src ctx b bad o _ =>
+      is_bytes b && forallb (fun p => is_bytes (snd p) && (nlen (snd p) =? 32)) bad
+      && is_branch ctx
+      && label_ok src (match dec (c_tx (table_valid bad)) b with Some (_, r) => Some r | None => None end)
+  | Hdr src b _ _ =>
+      is_bytes b && label_ok src (match dec c_header b with Some (_, r) => Some r | None => None end)
   | CsRead which b _ => is_bytes b && (which <? 2)
   | CsWrite which n _ => (which <? 2) && (n <? 18446744073709551616)
   | VecU8 b _ | OptU32 b _ => is_bytes b
